@@ -573,3 +573,125 @@ def late_bound_loopvars(fnode):
           for v in sorted((used & lvars) - params - assigned):
             out.append((n, v))
   return out
+
+
+# ------------------------------------------------------------------ counters
+def counter_run(ev, attr, upto=None):
+  """Symbolic run of a path over N = entry value of the integer attribute `attr` (text, e.g. 'self._ref_count').
+  Values are (a, b) = a*N + b.  Returns (writes, facts):
+    writes: [(event index, (a, b))]   every value stored into attr
+    facts:  [(event index, rel, k)]   what the branch conditions say about N, normalised to "N rel k" (rel in == != < <= > >=)"""
+  env = {}
+  cur = [(1, 0)]
+  writes, facts = [], []
+
+  def val(e):
+    if isinstance(e, ast.Constant) and isinstance(e.value, int) and not isinstance(e.value, bool):
+      return (0, e.value)
+    if isinstance(e, ast.Name):
+      return env.get(e.id)
+    if isinstance(e, ast.Attribute) and unparse(e) == attr:
+      return cur[0]
+    if isinstance(e, ast.BinOp) and isinstance(e.op, (ast.Add, ast.Sub)):
+      l, r = val(e.left), val(e.right)
+      if l is None or r is None:
+        return None
+      s = 1 if isinstance(e.op, ast.Add) else -1
+      return (l[0] + s * r[0], l[1] + s * r[1])
+    return None
+  NEG = {'==': '!=', '!=': '==', '<': '>=', '<=': '>', '>': '<=', '>=': '<'}
+  FLIP = {'==': '==', '!=': '!=', '<': '>', '<=': '>=', '>': '<', '>=': '<='}
+  OPS = {ast.Eq: '==', ast.NotEq: '!=', ast.Lt: '<', ast.LtE: '<=', ast.Gt: '>', ast.GtE: '>='}
+
+  def fact(node, truth, i):
+    if isinstance(node, ast.UnaryOp) and isinstance(node.op, ast.Not):
+      return fact(node.operand, not truth, i)
+    rel = k = None
+    if isinstance(node, ast.Compare) and len(node.ops) == 1 and type(node.ops[0]) in OPS:
+      l, r = val(node.left), val(node.comparators[0])
+      if l is None or r is None:
+        return
+      a, b = l[0] - r[0], l[1] - r[1]
+      rel = OPS[type(node.ops[0])]
+      if a == -1:
+        a, b, rel = 1, -b, FLIP[rel]
+      if a != 1:
+        return
+      k = -b
+    else:
+      v = val(node)
+      if v is None or v[0] != 1:
+        return
+      rel, k = '!=', -v[1]
+    if not truth:
+      rel = NEG[rel]
+    facts.append((i, rel, k))
+  for i, e in enumerate(ev if upto is None else ev[:upto]):
+    if e.kind == 'cond':
+      fact(e.node, bool(e.info), i)
+    if e.kind != 'stmt':
+      continue
+    st = e.node
+    if isinstance(st, ast.Assign) and len(st.targets) == 1:
+      t = st.targets[0]
+      if isinstance(t, ast.Tuple) and isinstance(st.value, ast.Tuple) and len(t.elts) == len(st.value.elts):
+        vals = [val(x) for x in st.value.elts]
+        for tt, vv in zip(t.elts, vals):
+          if isinstance(tt, ast.Name):
+            env[tt.id] = vv
+          elif unparse(tt) == attr:
+            cur[0] = vv
+            writes.append((i, vv))
+        continue
+      v = val(st.value)
+      if isinstance(t, ast.Name):
+        env[t.id] = v
+      elif unparse(t) == attr:
+        cur[0] = v
+        writes.append((i, v))
+    elif isinstance(st, ast.AugAssign) and isinstance(st.op, (ast.Add, ast.Sub)):
+      tl = ast.Name(id=st.target.id, ctx=ast.Load()) if isinstance(st.target, ast.Name) else st.target
+      v = val(ast.BinOp(left=tl, op=st.op, right=st.value))
+      if isinstance(st.target, ast.Name):
+        env[st.target.id] = v
+      elif unparse(st.target) == attr:
+        cur[0] = v
+        writes.append((i, v))
+  return writes, facts
+
+
+def counter_entails(facts, rel, k):
+  """Do the facts "N r c" (all true, integer N) entail "N rel k"?"""
+  lo, hi, neq = -10 ** 9, 10 ** 9, set()
+  for _, r, c in facts:
+    if r == '==':
+      lo, hi = max(lo, c), min(hi, c)
+    elif r == '!=':
+      neq.add(c)
+    elif r == '<':
+      hi = min(hi, c - 1)
+    elif r == '<=':
+      hi = min(hi, c)
+    elif r == '>':
+      lo = max(lo, c + 1)
+    elif r == '>=':
+      lo = max(lo, c)
+  while lo in neq:
+    lo += 1
+  while hi in neq:
+    hi -= 1
+  if lo > hi:
+    return True          # infeasible path: anything holds
+  if rel == '==':
+    return lo == hi == k
+  if rel == '!=':
+    return k < lo or k > hi or k in neq
+  if rel == '<':
+    return hi < k
+  if rel == '<=':
+    return hi <= k
+  if rel == '>':
+    return lo > k
+  if rel == '>=':
+    return lo >= k
+  return False
